@@ -67,6 +67,7 @@ def run(ctx: Ctx) -> None:
         ctx.violation("C07.3/decode-memo", key_of(isa.EMU_PY, "Emulator.decode_instruction", "decoded instruction remembered across steps"),
                       what + " - a long run and a fresh run from the same memory execute different instructions", f"{isa.EMU_PY}:{ln}")
     ctx.instance("C07.3/decode-memo", "the emulator fetch decodes from memory on every step (no instruction memo)", 1, 1)
+    diagnostics_and_inputs(ctx, py)
 
 
 # ---------------------------------------------------------------------------
@@ -479,3 +480,71 @@ def tracing_and_batches(ctx: Ctx, py: PyProgram) -> None:
                     ctx.violation("C07.3/shared-default", key_of(rel, fn.name, f"default {unparse(d)[:40]}"),
                                   f"{fn.name}() has the mutable default `{unparse(d)[:60]}`: it is evaluated once, so every call/instance that relies on the default shares one object (state leaks between emulator instances)", f"{rel}:{fn.lineno}")
     ctx.instance("C07.3/shared-default", "default arguments in the emulator modules: none is a mutable object", k, 20)
+
+
+# ---------------------------------------------------------------------------
+DIAGNOSTIC_STATE = {
+    # containers of the machine memory that exist for the UI / traces only; what they hold must never decide a device-visible effect
+    "imem_access_tracking": "per-register access history shown by the orchestrator",
+}
+
+
+def diagnostics_and_inputs(ctx: Ctx, py: PyProgram) -> None:
+    """(a) The internal-register access listener is how devices see CPU accesses (UART transmit, keyboard FIFO consumption): whether it
+    is called may not depend on the access-history log, which records what an *earlier* run of the same code did.  (b) The pure
+    stepper works on a private copy of the memory image it is given: stores of one step must not be visible to the next call."""
+    MEM = "pce500/memory.py"
+    STEPPER = "sc62015/pysc62015/stepper.py"
+    ctx.file_used(REPO / MEM)
+    fn = py.func(MEM, "PCE500Memory._track_imem_access")
+    g = cfgmod.build_py(fn, "_track_imem_access")
+    tainted: set[str] = set()
+    changed = True
+    while changed:
+        changed = False
+        for a in ast.walk(fn):
+            if isinstance(a, (ast.Assign, ast.AnnAssign)) and a.value is not None:
+                src = any((isinstance(x, ast.Attribute) and x.attr in DIAGNOSTIC_STATE) or (isinstance(x, ast.Name) and x.id in tainted) for x in ast.walk(a.value))
+                if src:
+                    for t in (a.targets if isinstance(a, ast.Assign) else [a.target]):
+                        if isinstance(t, ast.Name) and t.id not in tainted:
+                            tainted.add(t.id)
+                            changed = True
+    calls = [c for c in ast.walk(fn) if isinstance(c, ast.Call) and isinstance(c.func, ast.Attribute) and "callback" in c.func.attr and attr_chain(c.func.value) == "self"]
+    ctx.need(bool(calls), "_track_imem_access: listener call not found")
+    n = 0
+    for c in calls:
+        n += 1
+        for a, pol, _o in g.guards_of(g.node_of(c)):
+            if isinstance(a, ast.AST) and any((isinstance(x, ast.Name) and x.id in tainted) or (isinstance(x, ast.Attribute) and x.attr in DIAGNOSTIC_STATE) for x in ast.walk(a)):
+                ctx.violation("C07.3/diagnostic-gates-device", key_of(MEM, "PCE500Memory._track_imem_access", "listener call depends on the access log"),
+                              f"the internal-register access listener (UART/keyboard side effects hang off it) is only called when `{unparse(a)[:70]}` is {pol}: that test reads the access-history log, so what an instruction does depends on how often this code ran before, not on the machine state", f"{MEM}:{c.lineno}")
+    # (b)
+    cls = py.need_cls(py.module(STEPPER), "_SnapshotMemory")
+    init = cls.methods.get("__init__")
+    ctx.need(init is not None, "_SnapshotMemory.__init__ vanished")
+    params = {a_.arg for a_ in init.args.args if a_.arg != "self"}
+
+    def aliases(e: ast.expr) -> bool:
+        """Can the value be the caller's own object (a bare parameter on some branch)?"""
+        if isinstance(e, ast.Name):
+            return e.id in params
+        if isinstance(e, ast.IfExp):
+            return aliases(e.body) or aliases(e.orelse)
+        if isinstance(e, ast.BoolOp):
+            return any(aliases(v) for v in e.values)
+        if isinstance(e, ast.Call) and isinstance(e.func, ast.Name) and e.func.id == "cast" and len(e.args) == 2:
+            return aliases(e.args[1])
+        return False
+    # which parameters are containers (annotated Mapping/Dict/List/...)?  scalars cannot alias
+    containers = {a_.arg for a_ in init.args.args if a_.annotation is not None and any(k in unparse(a_.annotation) for k in ("Mapping", "Dict", "dict", "List", "list", "Sequence", "bytearray", "MutableMapping"))}
+    for a in ast.walk(init):
+        if isinstance(a, (ast.Assign, ast.AnnAssign)) and a.value is not None:
+            for t in (a.targets if isinstance(a, ast.Assign) else [a.target]):
+                if isinstance(t, ast.Attribute) and attr_chain(t.value) == "self" and any(isinstance(x, ast.Name) and x.id in containers for x in ast.walk(a.value)):
+                    n += 1
+                    params = containers
+                    if aliases(a.value):
+                        ctx.violation("C07.4/stepper-private-image", key_of(STEPPER, "_SnapshotMemory.__init__", f"self.{t.attr} aliases the caller's image"),
+                                      f"`self.{t.attr} = {unparse(a.value)[:80]}` can keep the caller's mapping itself: stores made by one CPUStepper.step() are then seen by the next call given the same image, so identical inputs give different results", f"{STEPPER}:{a.lineno}")
+    ctx.instance("C07.3/diagnostics-and-inputs", "device listener not gated by diagnostic logs; the pure stepper copies its memory image", n, 2)
